@@ -1,6 +1,6 @@
 #!/usr/bin/env python3
 """Growth families: parts of the specification that cover behaviour outside the twenty listed properties.
-usage: bin/grow <family> [quick|thorough]          (families: G01)
+usage: bin/grow <family> [quick|thorough]          (families: G01 LiveType, G02 Collections)
 
 They are run with the same three uses of TLC as the property checks - (M) model checking, (A) generation of
 histories, (B) a monitor that judges what the real code did - but they decide no listed property: nothing here
@@ -98,18 +98,70 @@ def g01(tier, seed):
         scr.cleanup()
 
 
+def g02(tier, seed):
+    """Resources and WrapperCollection as ordered lists: self-contained events, every operation on every state."""
+    t0 = time.time()
+    scr = V.Scratch("G02")
+    try:
+        drv = V.build_driver()
+        mcs = [V.model_check(scr, "MC_Collections", "MC_Collections.cfg")]
+        gen = V.generate(scr, "MC_Collections", "Gen_Collections.cfg", "gen-0.out", seed=seed)
+        evdir = scr.sub("ev")
+        V.run_driver(drv, ["cols", "-gen", gen, "-out", evdir])
+        os.remove(gen)
+        stats = json.load(open(os.path.join(evdir, "stats.json")))
+        need = ["%s:%s:ok" % (i, o) for i in ("resources", "wrapcol") for o in ("Add", "At", "Len", "GetType", "Wire")]
+        missing = [c for c in need if not stats["classes"].get(c)]
+        if missing:
+            raise V.Infra("vacuous run: never observed: %s" % missing)
+        results = V.validate(scr, "Trace_Collections", "Trace_Collections.cfg", evdir)
+        if sum(r["consumed"] for r in results) != stats["events"]:
+            raise V.Infra("monitor did not consume every event")
+        known = observations("G02")
+        hits, div = {}, []
+        for r in results:
+            for (l, fam, dev) in r["rejs"]:
+                if dev in known:
+                    hits[dev] = hits.get(dev, 0) + 1
+                else:
+                    div.append((r["chunk"], l, dev))
+        for dev, n in sorted(hits.items()):
+            V.log("OBSERVATION family=G02 %s: %s (%d calls)" % (dev, known[dev], n))
+        rc = 0
+        if div:
+            chunk, l, dev = div[0]
+            os.makedirs(os.path.join(V.out_root(), "replays"), exist_ok=True)
+            path = os.path.join(V.out_root(), "replays", "G02-divergence.json")
+            json.dump(dict(family="G02", deviation=dev, event=json.loads(V.line_of(chunk, l)),
+                           case=json.loads(V.line_of(chunk.replace("ev-", "case-"), l))), open(path, "w"), indent=1)
+            V.log("DIVERGENCE family=G02 replay=%s" % path)
+            V.log("  %d recorded calls are not what the documentation (or a listed observation) says" % len(div))
+            rc = 1
+        ev = dict(family="G02", tier=tier, seed=seed, model_runs=mcs, events_judged=stats["events"], outcome_classes=stats["classes"],
+                  exhaustive=True, observations_hit=hits, divergences=len(div), wall_s=round(time.time() - t0, 1), cmd="bin/grow G02 %s" % tier)
+        if not os.environ.get("VERIF_REPO"):
+            json.dump(ev, open(os.path.join(V.VERIF, "growth", "G02.json"), "w"), indent=1)
+        if rc == 0:
+            V.log("OK family=G02 tier=%s model_states=%d events=%d observations=%s wall=%.0fs" % (
+                tier, sum(m["states"] for m in mcs), stats["events"], hits, time.time() - t0))
+        return rc
+    finally:
+        scr.cleanup()
+
+
 def V_t(tier, q, t):
     return q if tier == "quick" else t
 
 
 def main():
-    if len(sys.argv) < 2 or sys.argv[1] != "G01":
+    fams = dict(G01=g01, G02=g02)
+    if len(sys.argv) < 2 or sys.argv[1] not in fams:
         print(__doc__)
         return 2
     tier = sys.argv[2] if len(sys.argv) > 2 else "quick"
     seed = int(os.environ.get("VERIF_SEED", "1") or 1)
     try:
-        return g01(tier, seed)
+        return fams[sys.argv[1]](tier, seed)
     except V.Infra as e:
         V.log("INFRA: %s" % e)
         return 2
